@@ -380,7 +380,7 @@ pub fn action_part_strategy(opts: RuleOpts) -> BoxedStrategy<ActionPart> {
         codes,
         0u8..5,
         prop::collection::vec((0u8..6, 0u8..3), 0..=2),
-        0u8..8,
+        0u8..10,
         pickw(vec![(4, None), (1, Some(true)), (2, Some(false))]),
         tri(2),
         tri(2),
@@ -412,6 +412,9 @@ pub fn body_filter_json(kind: u8, id: &str) -> Option<Value> {
         5 => Some(json!({"action": "replace", "value": format!("<title>{id}</title>"), "inner_value": null, "element_tree": ["html", "head", "title"], "css_selector": null, "id": format!("bf-{id}"), "target_hash": "title"})),
         6 => Some(json!({"action": "append_text", "content": format!("\u{e9}\"\\\n<{id}>\u{1f918}"), "id": null, "target_hash": null})),
         7 => Some(json!({"action": "append_child", "value": format!("<meta name=\"d\" content=\"{id} \u{e9}\">"), "inner_value": format!("{id} \u{e9}"), "element_tree": ["html", "head"], "css_selector": "meta[name=\"d\"]", "id": format!("bf-{id}"), "target_hash": "meta-d"})),
+        // round 4: text filters whose content is empty (an empty robots.txt; a marker that captured nothing)
+        8 => Some(json!({"action": "replace_text", "content": "", "id": format!("bf-{id}"), "target_hash": "text"})),
+        9 => Some(json!({"action": "append_text", "content": "", "id": null, "target_hash": null})),
         _ => None,
     }
 }
